@@ -52,3 +52,55 @@ class Probe(Command):
         if fail == "raw":
             raise ZeroDivisionError("probe")
         return Term((self.result_name, vals))
+
+
+# ---- producers with every declared output kind (used by the parameter / validation checks)
+import numpy as _np
+
+
+class OutData(Command):
+    inputs = {}
+    output = params.DataParameter()
+
+    def execute(self, **kw):
+        return _np.ma.array([1.0, 2.0, 3.0])
+
+
+class OutDataFuzzy(Command):
+    is_fuzzy = True
+    inputs = {}
+    output = params.DataParameter()
+
+    def execute(self, **kw):
+        return _np.ma.array([-1.0, 0.0, 1.0])
+
+
+class OutNumber(Command):
+    inputs = {}
+    output = params.NumberParameter()
+
+    def execute(self, **kw):
+        return 3
+
+
+class OutString(Command):
+    inputs = {}
+    output = params.StringParameter()
+
+    def execute(self, **kw):
+        return "s"
+
+
+class OutBool(Command):
+    inputs = {}
+    output = params.BooleanParameter()
+
+    def execute(self, **kw):
+        return True
+
+
+class OutNone(Command):
+    inputs = {}
+
+    def execute(self, **kw):
+        return None
